@@ -13,7 +13,7 @@ import (
 )
 
 func init() {
-	register("C14", "Decides: (R1) in the ExtendedDaemonSet reconciler the accumulator fields Ready/Current/Available are each written by exactly one `acc.X += item.Status.X` that executes for every item of the listed replica sets (before any filtering); Status.Current/Ready/Available are stored only from the like-named accumulator field; Status.Desired is stored only as <rs>.Status.Desired of the replica set whose name is stored to Status.ActiveReplicaSet, or incremented by <rs>.Status.Desired of the replica set whose name is stored to Status.Canary.ReplicaSet, on exactly the paths that store that name and after the base store; Status.UpToDate is stored only as <rs>.Status.Current of one of those two replica sets, the canary one on exactly the canary paths; (R2) in every strategy planner the stored NewStatus.Ready/Available/Current are per-node counters of one loop that are incremented only under IsPodReady(pod) / IsPodAvailable(pod) / compareCurrentPodWithNewPod(…, pod, …) of one pod of the iteration; where NewStatus.Desired is a counter (active and canary roles) it grows by exactly one per iteration and every feasible iteration path satisfies 0 <= dAvailable <= dReady <= dCurrent <= dDesired, using the lemma IsPodAvailable => IsPodReady (itself checked) to prune infeasible paths; (R3) decision tables: the condition-maintenance function sets Canary-Failed True iff failed and Canary-Paused True iff paused and not failed; the state function stores State 'Canary Failed' iff failed, otherwise during an active canary 'Canary Paused' iff paused else 'Canary', otherwise the non-canary state of the annotations; Status.Canary is cleared unless the canary is active; the active flag is true only without failure and with different active/up-to-date names.", runC14)
+	register("C14", "Decides: (R1) in the ExtendedDaemonSet reconciler the accumulator fields Ready/Current/Available are each written by exactly one `acc.X += item.Status.X` that executes for every item of the listed replica sets (before any filtering); Status.Current/Ready/Available are stored only from the like-named accumulator field; Status.Desired is stored only as <rs>.Status.Desired of the replica set whose name is stored to Status.ActiveReplicaSet, or incremented by <rs>.Status.Desired of the replica set whose name is stored to Status.Canary.ReplicaSet, on exactly the paths that store that name and after the base store; Status.UpToDate is stored only as <rs>.Status.Current of one of those two replica sets, the canary one on exactly the canary paths; (R2) in every strategy planner the stored NewStatus.Ready/Available/Current are per-node counters of one loop that are incremented only under IsPodReady(pod) / IsPodAvailable(pod) / compareCurrentPodWithNewPod(…, pod, …) of one pod of the iteration; where NewStatus.Desired is a counter (active and canary roles) it grows by exactly one per iteration and every feasible iteration path satisfies 0 <= dAvailable <= dReady <= dCurrent <= dDesired, using the lemma IsPodAvailable => IsPodReady (itself checked) to prune infeasible paths; every return of a planner whose error result is not known non-nil is dominated by the stores of those four counters (stale counters only accompany an error); (R3) decision tables: the condition-maintenance function sets Canary-Failed True iff failed and Canary-Paused True iff paused and not failed; the state function stores State 'Canary Failed' iff failed, otherwise during an active canary 'Canary Paused' iff paused else 'Canary', otherwise the non-canary state of the annotations; Status.Canary is cleared unless the canary is active; the active flag is true only without failure and with different active/up-to-date names.", runC14)
 }
 
 const fnEDSCondUpdate = pkgEDSCond + ".UpdateExtendedDaemonSetStatusCondition"
@@ -485,6 +485,7 @@ func c14Planners(r *Run) {
 			}
 			vals[F] = st.Val
 		}
+		c14CountersOnSuccess(r, fn, sts)
 		if dup {
 			r.Undecided("C14.R2", "planner counters", pos, shortFunc(fn), "a status counter field is assigned more than once")
 			continue
@@ -661,6 +662,57 @@ func c14Planners(r *Run) {
 				map[bool]string{true: fmt.Sprintf("Desired is the constant %d (role neither active nor canary): the chain up to Desired is not claimed for this role", consts["Desired"]), false: chainDetail}[chainOK])
 			o.Trivial = chainOK
 		}
+	}
+}
+
+// c14CountersOnSuccess (R2b): every return of a planner that is not an error return (the returned
+// error is not known to be non-nil where the return executes) is dominated by a store of each of
+// NewStatus.{Desired, Ready, Current, Available}: a successful plan always carries freshly counted
+// numbers; stale counters may only accompany an error.
+func c14CountersOnSuccess(r *Run, fn *ssa.Function, sts []*ssa.Store) {
+	ff := computeFacts(fn)
+	errIdx := -1
+	res := fn.Signature.Results()
+	errT := types.Universe.Lookup("error").Type()
+	for i := 0; i < res.Len(); i++ {
+		if types.Identical(res.At(i).Type(), errT) {
+			errIdx = i
+		}
+	}
+	for i, ret := range returnsOf(fn) {
+		rpos := r.Prog.Pos(instrPos(ret))
+		construct := fmt.Sprintf("counters written before return-%d", i+1)
+		need := "a return without a known error is dominated by the stores of NewStatus.Desired/Ready/Current/Available"
+		if errIdx >= 0 && errIdx < len(ret.Results) {
+			e := ret.Results[errIdx]
+			if !isNilConst(e) && ff.Holds(ret.Block(), false, func(v ssa.Value, _ string) bool {
+				return isNilCompareOf(v, func(x ssa.Value) bool { return x == e })
+			}) {
+				o := r.Check("C14.R2", construct, rpos, shortFunc(fn), need, true, "error return: the returned error is non-nil on every path to it")
+				o.Trivial = true
+				continue
+			}
+		}
+		var missing []string
+		for _, F := range []string{"Desired", "Ready", "Current", "Available"} {
+			found := false
+			for _, st := range sts {
+				if fieldName(st.Addr.(*ssa.FieldAddr)) != F {
+					continue
+				}
+				if st.Block() == ret.Block() || st.Block().Dominates(ret.Block()) {
+					found = true
+				}
+			}
+			if !found {
+				missing = append(missing, F)
+			}
+		}
+		detail := ""
+		if len(missing) > 0 {
+			detail = "this return can be reached without writing NewStatus." + strings.Join(missing, ", NewStatus.") + ": the replica-set status keeps its previous numbers"
+		}
+		r.Check("C14.R2", construct, rpos, shortFunc(fn), need, len(missing) == 0, detail)
 	}
 }
 
@@ -1001,7 +1053,7 @@ func runC14(r *Run) {
 	r.RuleDoc("C14.R2", "planner counters: guards, one per node, chain available <= ready <= current <= desired per iteration")
 	r.RuleDoc("C14.R3", "decision tables of the canary conditions, the state string, Status.Canary and the active flag")
 	r.Floor("C14.R1", 9)
-	r.Floor("C14.R2", 14)
+	r.Floor("C14.R2", 17)
 	r.Floor("C14.R3", 15)
 	r.NotCovered("agreement of the counters with the pods that actually exist (needs a cluster state); staleness of replica-set statuses read by the ExtendedDaemonSet reconciler; the Reason field and the non-canary state strings (C08); consumers of the status (cmd/check-eds, kubectl-eds); the counter chain for replica sets in the 'unknown' role, whose Desired is the constant 0; status when spec.strategy.canary is nil (the state function is not called)")
 
